@@ -153,6 +153,39 @@ def norm_union(members):
     return flat[0] if len(flat) == 1 else ("union", flat)
 
 
+def permute_unions(t, rng, mode=None):
+    """the same annotation with the members of every union in another order
+    (mode: 'none_first' | 'none_last' | 'reversed' | 'shuffle'; None = random choice per union)"""
+    k = t[0]
+    if k in ("nt", "vtuple"):
+        return (k, permute_unions(t[1], rng, mode))
+    if k == "coll":
+        return (k, t[1], [permute_unions(m, rng, mode) for m in t[2]])
+    if k != "union":
+        return t
+    ms = [permute_unions(m, rng, mode) for m in t[1]]
+    how = mode or rng.choice(["none_first", "none_last", "reversed", "shuffle", "shuffle"])
+    if how == "reversed":
+        ms.reverse()
+    elif how == "shuffle":
+        rng.shuffle(ms)
+    else:
+        rest = [m for m in ms if m[0] != "none"]
+        nones = [m for m in ms if m[0] == "none"]
+        ms = nones + rest if how == "none_first" else rest + nones
+    return ("union", ms)
+
+
+def clear_predicate_caches():
+    """drop the lru_caches of pyoak.typing (pure memoisation): unions of *non-node* types (`None | list[int]`) cannot be
+    made fresh per case, so the harness clears the memo tables before a random half of the cases"""
+    import pyoak.typing as pt
+    for v in vars(pt).values():
+        cc = getattr(v, "cache_clear", None)
+        if callable(cc):
+            cc()
+
+
 def ok_as_arg(t):
     """None is kept out of container arguments (mashumaro refuses `tuple[None, int]` before pyoak sees it)"""
     return t[0] != "none"
@@ -262,9 +295,12 @@ def all_terms(atoms, d):
             for b in mem[i + 1:]:
                 if a[0] == "none" or b[0] == "none":
                     new.append(norm_union([a, b]))
+                    new.append(norm_union([b, a]))
                 else:
                     new.append(("union", [a, b]))
                     new.append(("union", [a, b, ("none",)]))
+                    new.append(("union", [("none",), b, a]))
+                    new.append(("union", [b, ("none",), a]))
         for a in args:
             new.append(("vtuple", a))
             new.append(("coll", "tuple", [a]))
@@ -335,17 +371,19 @@ class Renderer:
             self.newtypes.append(f'{name} = NewType("{name}", {base})')
             return name
         if k == "union":
-            ms = [self.expr(m, quoted_ctx) for m in t[1] if m[0] != "none"]
+            # members in the order of the term (None first / in the middle / last)
+            allm = [self.expr(m, quoted_ctx) for m in t[1]]
+            ms = [e for e, m in zip(allm, t[1]) if m[0] != "none"]
             has_none = any(m[0] == "none" for m in t[1])
+            none_last = t[1][-1][0] == "none"
             use_pipe = self.sp.pipe and (quoted_ctx or not any(m[0] == "fwd" for m in t[1]))
             if use_pipe:
-                return " | ".join(ms + (["None"] if has_none else []))
-            if has_none and len(ms) == 1:
+                return " | ".join(allm)
+            if has_none and none_last and len(ms) == 1:
                 return f"Optional[{ms[0]}]"
-            if has_none:
-                # both spellings of an optional union occur
-                return f"Optional[Union[{', '.join(ms)}]]" if self.uid % 2 else f"Union[{', '.join(ms)}, None]"
-            return f"Union[{', '.join(ms)}]"
+            if has_none and none_last and self.uid % 2:
+                return f"Optional[Union[{', '.join(ms)}]]"
+            return f"Union[{', '.join(allm)}]"
         g = GEN_NAMES[self.sp.typing_generics]
         if k == "vtuple":
             return f"{g['tuple']}[{self.expr(t[1], quoted_ctx)}, ...]"
@@ -377,33 +415,11 @@ class Renderer:
 
 
 SHARED_SRC = """
-from dataclasses import dataclass
 from enum import Enum
-from pyoak.node import ASTNode
 
 class C11Color(Enum):
     RED = 1
     BLUE = 2
-
-@dataclass(frozen=True)
-class C11N0(ASTNode):
-    v: int = 0
-
-@dataclass(frozen=True)
-class C11N1(C11N0):
-    w: str = ""
-
-@dataclass(frozen=True)
-class C11N2(ASTNode):
-    pass
-
-@dataclass(frozen=True)
-class C11Later0(ASTNode):
-    v: int = 0
-
-@dataclass(frozen=True)
-class C11Later1(C11Later0):
-    pass
 """
 
 PRELUDE = """
@@ -412,14 +428,31 @@ from enum import Enum
 from typing import (Any, Dict, FrozenSet, List, Literal, Mapping, NewType, Optional, Sequence, Set, Tuple, Union)
 from collections.abc import Sequence as ASeq, Mapping as AMap
 from pyoak.node import ASTNode
-from c11_shared import C11Color as Color, C11N0 as N0, C11N1 as N1, C11N2 as N2
+from c11_shared import C11Color as Color
 """
 
-# the "later" node classes are bound in the generated module only after the chain has been defined:
+# Node classes are FRESH for every generated module: pyoak's predicates are lru_cached and typing objects that
+# differ only in the order of union members compare (and hash) equal, so with shared node classes the verdict of
+# `Union[None, N0]` would be whatever an earlier `Union[N0, None]` got.  Only the classes a chain mentions are made.
+NODE_SRC = {
+    0: "@dataclass(frozen=True)\nclass C11N0_{u}(ASTNode):\n    v: int = 0\nN0 = C11N0_{u}\n",
+    1: "@dataclass(frozen=True)\nclass C11N1_{u}(N0):\n    w: str = ''\nN1 = C11N1_{u}\n",
+    2: "@dataclass(frozen=True)\nclass C11N2_{u}(ASTNode):\n    pass\nN2 = C11N2_{u}\n",
+}
+# the "later" node classes are defined in the generated module only after the chain has been defined:
 # at class-definition time the names are unbound (NameError in get_type_hints), at first use they resolve
-LATER = """
-from c11_shared import C11Later0 as Later0, C11Later1 as Later1
-"""
+LATER_SRC = {
+    0: "@dataclass(frozen=True)\nclass C11Later0_{u}(ASTNode):\n    v: int = 0\nLater0 = C11Later0_{u}\n",
+    1: "@dataclass(frozen=True)\nclass C11Later1_{u}(Later0):\n    pass\nLater1 = C11Later1_{u}\n",
+}
+
+
+def _used(levels, kind):
+    used = {s[1] for lvl in levels for _, t in lvl for s in subterms(t) if s[0] == kind}
+    if 1 in used:
+        used.add(0)          # N1 derives from N0, Later1 from Later0
+    return sorted(used)
+
 
 _shared = None
 
@@ -454,8 +487,9 @@ class Chain:
             body = [f"    {fn}: {r.annotation(ty)} = None" for fn, ty in fields] or ["    pass"]
             nts = r.newtypes[before:]
             self.sources.append("\n".join(nts + ["@dataclass(frozen=True)", f"class {name}({base}):"] + body) + "\n")
-        self.header = ("from __future__ import annotations\n" if sp.postponed else "") + PRELUDE
-        self.later = LATER
+        self.header = ("from __future__ import annotations\n" if sp.postponed else "") + PRELUDE + "\n" + \
+            "\n".join(NODE_SRC[i].format(u=self.uid) for i in _used(levels, "node"))
+        self.later = "\n".join(LATER_SRC[i].format(u=self.uid) for i in _used(levels, "fwd")) + "\n"
 
     def text(self):
         return self.header + "\n" + "\n".join(self.sources) + self.later
